@@ -69,6 +69,8 @@ def run(ctx):
     # ---- (2b) cluster sequences (spec/GkfClusters.tla): per-cluster verdicts, no influence between neighbours
     cl = cluster_docs(ctx)
     cov["cluster_documents"] = cl
+    # ---- (2c) attribute level (spec/GkfAttrs.tla)
+    cov["attribute_documents"] = attr_docs(ctx)
     # ---- (3) mutation / truncation sweep of repository inputs
     mut = mutation_sweep(ctx)
     cov.update({"states": r.distinct, "transitions": r.generated, "traces_validated_against_impl": len(docs),
@@ -77,6 +79,61 @@ def run(ctx):
     ctx.assume("memory safety and termination are observed by ASan/UBSan and timeouts on specification-generated inputs (trusted observers)")
     ctx.assume("'every byte sequence' is sampled structurally: all event sequences up to the bound + deterministic mutations of repository inputs")
     return cov
+
+
+ORDER = ["network", "parameters", "pobs", "fixpoint", "point", "obs", "direction", "distance", "angle", "sdistance", "zangle", "azimuth", "dh", "cpoint", "covmat", "vec"]
+
+
+def attr_docs(ctx):
+    consts = {"Keep": 11 if ctx.quick else 1, "Seed": ctx.seed}
+    cfg = os.path.join(vlib.SPEC, "_gkfat_%s.cfg" % ctx.pid)
+    with open(cfg, "w") as f:
+        f.write("SPECIFICATION Spec\nCONSTANTS\n" + "".join("  %s = %s\n" % kv for kv in consts.items()) + "INVARIANT Emit\nINVARIANT Sound\nCHECK_DEADLOCK FALSE\n")
+    r = vlib.tlc("GkfAttrs", os.path.basename(cfg), timeout=1200)
+    os.remove(cfg)
+    if r.outcome == "invariant":
+        ctx.violation("model|" + str(r.violated), "TLC: %s violated in GkfAttrs\n%s" % (r.violated, r.trace_text[:2000]))
+    elif r.outcome != "ok":
+        raise vlib.ModelFailure("GkfAttrs: %s\n%s" % (r.outcome, r.out[-2000:]))
+    import json
+    cases = sorted(r.cases, key=lambda c: json.dumps(c, sort_keys=True))
+    base_text, _ = gkfdocs.attr_doc([])
+    jobs = [{"gkf": base_text, "kind": "asan", "want": ["xml"], "timeout": 60}]
+    meta = [None]
+    for c in cases:
+        text, at = gkfdocs.attr_doc(c["muts"])
+        jobs.append({"gkf": text, "kind": "asan", "want": ["xml"], "timeout": 60})
+        meta.append((c, text, at))
+    runs = gl.run_many(ctx, jobs)
+    if gl.classify(runs[0]) != "adjusted":
+        ctx.violation("attrs|base", "the valid base document is not adjusted: %s\n%s" % (gl.classify(runs[0]), runs[0].out[-800:]), replay={"gkf": base_text})
+    st = {"documents": len(cases), "refused_by_model": 0, "states": r.distinct}
+    for m, run in zip(meta[1:], runs[1:]):
+        c, text, at = m
+        what = "+".join("%s.%s:%s" % (x["e"], x["a"], x["w"]) for x in c["muts"])
+        first = c["muts"][0] if len(c["muts"]) == 1 else min(c["muts"], key=lambda x: ORDER.index(x["e"]))
+        sig = "%s|%s|%s" % (first["e"], first["a"], first["w"])
+        cls = gl.classify(run)
+        if cls in ("crash", "sanitizer", "hang"):
+            ctx.violation("attrs|%s|%s" % (cls, sig), "document with %s makes gama-local %s (rc=%s)\n%s" % (what, cls, run.rc, run.out[-1200:]), replay={"gkf": text})
+            continue
+        got, line, msg = parser_outcome(run)
+        if c["verdict"] == "accepted":
+            if got != "accepted" or cls != "adjusted":
+                ctx.violation("attrs|valid-refused|" + sig, "%s leaves a valid document but gama-local refuses it (line %s: %s)" % (what, line, msg), replay={"gkf": text})
+            continue
+        st["refused_by_model"] += 1
+        exp = at[ORDER[c["at"] - 1]]
+        if got != "rejected":
+            if cls == "adjusted":
+                ctx.violation("attrs|invalid-accepted|" + sig, "%s: the document is adjusted without any diagnostic (expected a refusal at line %d)" % (what, exp), replay={"gkf": text})
+            elif cls not in ("error-xml", "error", "not-adjusted"):
+                ctx.violation("attrs|invalid-%s|%s" % (cls, sig), "%s: outcome %s" % (what, cls), replay={"gkf": text})
+            elif run.res is None or not any((t or "").strip() for t in (run.res.get("error") or [])):
+                ctx.violation("attrs|no-diagnostic|" + sig, "%s: refused (%s) without a diagnostic\n%s" % (what, cls, run.out[-400:]), replay={"gkf": text})
+        elif not msg.strip() or line != exp:
+            ctx.violation("attrs|line|" + sig, "%s: refused at line %s (%r), the corrupted element is on line %d" % (what, line, msg, exp), replay={"gkf": text})
+    return st
 
 
 def cluster_docs(ctx, only=None, keep=None):
